@@ -123,6 +123,25 @@ impl Monitor for C12 {
                     }
                 }
             }
+            // many products in one input: nested and flat chains
+            for k in [5usize, 20, 40, 63, 64, 65, 66, 80, 100, 120] {
+                let inner = if ev == Ev::I64 { "1" } else { "1" };
+                let nested = format!("{}{}{}", "2(".repeat(k), inner, ")".repeat(k));
+                let flat = (0..k).map(|_| "1(1)").collect::<Vec<_>>().join("+");
+                let mixed = (0..k).map(|i| if i % 2 == 0 { "(1)(1)" } else { "abs(1)1" }).collect::<Vec<_>>().join("-");
+                for imp in [nested, flat, mixed] {
+                    if !ctx.mine() {
+                        continue;
+                    }
+                    if let Ok(p) = parse(ev, &imp) {
+                        if !p.unspec && p.ast.has_imul() {
+                            let ex = explicit(&p.ast, None, &mut 0).render();
+                            let z = crate::val::Val::zero(ev);
+                            ctx.check(&Case::pair(ev, "explicit", &imp, z, &ex, z), &|c, st| self.judge(c, st));
+                        }
+                    }
+                }
+            }
             // forbidden juxtapositions: constants, @, superscripts, ° and rad neither start nor continue a product
             let mut bad: Vec<String> = vec![];
             let consts: Vec<&str> = if has_consts(ev) { vec!["pi", "π", "e", "@"] } else { vec!["@"] };
